@@ -5,7 +5,9 @@ P = {'id': 'C03',
               'mem_ids_never_reused',
               'mem_id_wraparound_refuted',
               'mixed_get_record',
-              'mixed_absent'],
+              'mixed_absent',
+              'zip_get_record',
+              'zip_absent'],
  'trusted': ['modelled (M+S): src/blob_store/memory.rs; src/blob_store/mixed_len.rs (bitmap rank as count_occ-style spec rank, UintVecMin0 offsets at '
              'value level); src/blob_store/zip_offset_builder.rs + zip_offset.rs + sorted_uint_vec.rs (definitions, bit-exact file image compared on every run); '
              'src/blob_store/simple_zip.rs and zero_length.rs (definitions)',
